@@ -122,7 +122,7 @@ func (s *Sess) Free(a FreeArgs) Result {
 			early = true
 			return
 		}
-		if sortedDistinctDesc(a.Indices) && !proto4.VerifyFreeSectorsProof(resp.OldSubtreeHashes, resp.OldLeafHashes, a.Indices,
+		if distinctInRange(a.Indices, st.Revision.Filesize/proto4.SectorSize) && !proto4.VerifyFreeSectorsProof(resp.OldSubtreeHashes, resp.OldLeafHashes, a.Indices,
 			st.Revision.Filesize/proto4.SectorSize, st.Revision.FileMerkleRoot, resp.NewMerkleRoot) {
 			res.Notes = append(res.Notes, "free proof does not verify")
 		}
@@ -147,6 +147,19 @@ func (s *Sess) Free(a FreeArgs) Result {
 	res.Op = fmt.Sprintf("free %d %s %s %s %s", a.Cid, pw, cw, U64s(a.Indices), secondWord(sw, a.Second, a.Bang, early))
 	res.Impl = outLine(res.Cls, "", s.Events())
 	return res
+}
+
+// distinctInRange: what RPCFreeSectorsRequest.Validate accepts; for such a list the verifying
+// renter checks the host's proof for the order it requested.
+func distinctInRange(is []uint64, n uint64) bool {
+	seen := map[uint64]bool{}
+	for _, i := range is {
+		if i >= n || seen[i] {
+			return false
+		}
+		seen[i] = true
+	}
+	return true
 }
 
 func sortedDistinctDesc(is []uint64) bool {
@@ -353,12 +366,20 @@ type FundArgs struct {
 func (s *Sess) Fund(a FundArgs) Result {
 	hk, st, _ := s.honestKey(a.Cid)
 	var total types.Currency
+	overflow := false
 	req := proto4.RPCFundAccountsRequest{ContractID: s.CID(a.Cid)}
 	for _, d := range a.Deposits {
-		total = total.Add(d.Amount)
+		var o bool
+		total, o = total.AddWithOverflow(d.Amount)
+		overflow = overflow || o
 		req.Deposits = append(req.Deposits, proto4.AccountDeposit{Account: Acct(d.Account), Amount: d.Amount})
 	}
 	rev, _, err := proto4.ReviseForFundAccounts(st.Revision, total)
+	if overflow {
+		// the deposits do not fit 128 bits: there is no honest revision; explicit ("b") signatures are
+		// built by the caller from the current revision
+		rev, err = st.Revision, fmt.Errorf("deposit total overflows")
+	}
 	sp := a.Sig
 	if err != nil && sp.Kind == "h" {
 		sp = SigSpec{Kind: "x"}
@@ -440,8 +461,17 @@ func (s *Sess) Replenish(a ReplArgs) Result {
 			}
 		}
 		res.Vals = curs(amts)
-		total := resp.TotalCost()
-		if total.IsZero() {
+		var total types.Currency
+		tooBig := false
+		for _, d := range resp.Deposits {
+			var o bool
+			total, o = total.AddWithOverflow(d.Amount)
+			tooBig = tooBig || o
+		}
+		if tooBig {
+			res.Notes = append(res.Notes, "the host's deposits add up beyond 128 bits")
+		}
+		if total.IsZero() && !tooBig {
 			// the host is done; the model expects nothing further
 			res.Cls = "ok"
 			_, sw = s.revSig(a.Second, hk, st.Revision, a.CurIDs)
